@@ -1,11 +1,11 @@
 SPECIFICATION Spec
 CONSTANTS
   FixDurs = {1}
-  ScanDurs = {0,1}
-  RestDurs = {0,1}
-  NodeDurs = {0,1}
+  ScanDurs = {0,1,2}
+  RestDurs = {0,1,2}
+  NodeDurs = {1}
   UseSw = FALSE
-  UseFs = TRUE
+  FsOps = {"FolderScan","FolderRestore","FileCorrupt"}
   AllowRestart = FALSE
   InitSw = {"GOOD"}
 INVARIANT InvNeverOverdue
